@@ -32,9 +32,18 @@ def programs(seed, tier):
     return progs, n
 
 
+def flags(classes):
+    """Command-line options for a set of output classes; `h` (and several .c files) come
+    from splitting the generated C with -Csmax."""
+    f = [worlds.OUT_FLAG[c] for c in classes if c != "h"]
+    if "h" in classes:
+        f.append("-Csmax=5")
+    return f
+
+
 def reference(binfo, scratch, name, text, classes):
     w = scratch.new()
-    r = worlds.compile_world(binfo, w, {name: text}, [worlds.OUT_FLAG[c] for c in classes], [name], cpu=60)
+    r = worlds.compile_world(binfo, w, {name: text}, flags(classes), [name], cpu=60)
     vsim.cleanup_world(w)
     return r
 
@@ -116,7 +125,7 @@ def run_plan(binfo, scratch, name, text, classes, plan, ref):
         def pre(sb):
             for rel in targets:
                 os.makedirs(os.path.join(sb, rel), exist_ok=True)
-    r = worlds.compile_world(binfo, w, {name: text}, [worlds.OUT_FLAG[c] for c in classes], [name],
+    r = worlds.compile_world(binfo, w, {name: text}, flags(classes), [name],
                              plan_extra=plan_lines(plan), cpu=60, pre=pre)
     vsim.cleanup_world(w)
     return r
@@ -189,13 +198,20 @@ def main(argv):
         for (name, text), ref in zip(cands, refs):
             got = sorted(set(worlds.cls_of(k) for k in ref.files))
             if ref.rc == 0 and all(c in got for c in classes) and not ref.timeout and len(progs) < want:
-                progs.append((name, text, ref))
+                progs.append((name, text, ref, classes))
             elif len(progs) < want:
                 skipped.append(name)
+        # second configuration: generated C split into several files plus a header (-Csmax)
+        split = ["c", "h", "main"]
+        for (name, text, ref, _) in list(progs[:2 if tier == "quick" else 8]):
+            r2 = reference(binfo, scratch, name, text, split)
+            got = set(worlds.cls_of(k) for k in r2.files)
+            if r2.rc == 0 and "h" in got:
+                progs.append((name, text, r2, split))
         cases = []
-        for pi, (name, text, ref) in enumerate(progs):
-            rng = vsim.Rng(seed, "c18-plans", name)
-            for plan in gen_plans(rng, ref, classes, tier):
+        for pi, (name, text, ref, cl) in enumerate(progs):
+            rng = vsim.Rng(seed, "c18-plans", name, "+".join(cl))
+            for plan in gen_plans(rng, ref, cl, tier):
                 cases.append((pi, plan))
         # regression corpus: minimised plans of defects found earlier (fixed in /repo)
         import glob
@@ -206,7 +222,7 @@ def main(argv):
             text = rp["source"].encode("latin-1")
             ref = reference(binfo, scratch, rp["name"], text, classes)
             if ref.rc == 0:
-                progs.append((rp["name"], text, ref))
+                progs.append((rp["name"], text, ref, classes))
                 cases.append((len(progs) - 1, rp["plan"]))
         budget = checklib.Budget(200 if tier == "quick" else 1500)
         results = []
@@ -214,7 +230,7 @@ def main(argv):
         for b0 in range(0, len(cases), B):
             if budget.over():
                 break
-            results += vsim.pmap(lambda c: run_plan(binfo, scratch, progs[c[0]][0], progs[c[0]][1], classes, c[1], progs[c[0]][2]),
+            results += vsim.pmap(lambda c: run_plan(binfo, scratch, progs[c[0]][0], progs[c[0]][1], progs[c[0]][3], c[1], progs[c[0]][2]),
                                  cases[b0:b0 + B])
         done = len(results)
         verdicts = []
@@ -236,7 +252,7 @@ def main(argv):
 
         # determinism sample
         redo_ix = [i for i in range(done) if vsim.Rng(seed, "redo18", i).chance(5, 100)][:60]
-        redo = vsim.pmap(lambda i: run_plan(binfo, scratch, progs[cases[i][0]][0], progs[cases[i][0]][1], classes, cases[i][1], progs[cases[i][0]][2]), redo_ix)
+        redo = vsim.pmap(lambda i: run_plan(binfo, scratch, progs[cases[i][0]][0], progs[cases[i][0]][1], progs[cases[i][0]][3], cases[i][1], progs[cases[i][0]][2]), redo_ix)
         mism = 0
         for i, r2 in zip(redo_ix, redo):
             if r2.log_hash() != results[i].log_hash() or r2.outcome_hash() != results[i].outcome_hash():
@@ -257,11 +273,11 @@ def main(argv):
             ids.sort(key=lambda i: (len(cases[i][1]), len(progs[cases[i][0]][1])))
             i = ids[0]
             pi, plan = cases[i]
-            name, src, ref = progs[pi]
+            name, src, ref, pcl = progs[pi]
             want_v = verdicts[i][0]
 
             def fails(sub):
-                rr = run_plan(binfo, scratch, name, src, classes, sub, ref)
+                rr = run_plan(binfo, scratch, name, src, pcl, sub, ref)
                 return judge(sub, rr, ref)[0] == want_v
             if not fails(plan):
                 out.nondet.append("plan %d: violation %s did not reproduce" % (i, key))
@@ -269,10 +285,10 @@ def main(argv):
             mplan = plan
             if len(plan) > 1:
                 mplan, _ = checklib.ddmin(plan, fails, 20)
-            rr = run_plan(binfo, scratch, name, src, classes, mplan, ref)
+            rr = run_plan(binfo, scratch, name, src, pcl, mplan, ref)
             v2, d2, _ = judge(mplan, rr, ref)
             rp = vsim.write_replay(PID, "seed%d-p%d" % (seed, i), {
-                "property": PID, "seed": seed, "name": name, "source": src.decode("latin-1"), "classes": classes,
+                "property": PID, "seed": seed, "name": name, "source": src.decode("latin-1"), "classes": pcl,
                 "plan": mplan, "verdict": v2, "detail": d2, "key": key, "source_key": binfo["key"],
                 "fs_history": [" ".join(e) for e in vsim.parse_log(rr.log)["fs"]][:80],
                 "other_failing_plans": len(ids) - 1})
@@ -284,8 +300,8 @@ def main(argv):
             "distinct_nontrivial": len(distinct),
             "rule": "fault plans enumerated per program and output class (ENOSPC at boundary/seeded byte budgets, EIO at a write, failure only at close, failing open, directory in the way, failing mkdir, seeded subsets) plus the fault-free plan; non-trivial = a fault actually fired (F lines of the event log) ; distinct = distinct (program, plan, event-log hash)",
             "samples": [{"program": progs[cases[i][0]][0], "plan": cases[i][1]} for i in range(0, done, max(1, done // 4))][:5],
-            "programs": len(progs), "program_names": [p[0] for p in progs], "programs_skipped_not_compiling": skipped,
-            "output_classes": classes,
+            "programs": len(progs), "program_names": ["%s[%s]" % (p[0], "+".join(p[3])) if len(p[3]) < 5 else p[0] for p in progs], "programs_skipped_not_compiling": skipped,
+            "output_classes": classes + ["h (with -Csmax=5, second configuration)"],
             "plans_planned": len(cases), "plans_run": done,
             "faults_configured": configured, "faults_fired": fired_n,
             "fault_free_plans": sum(1 for c in cases[:done] if not c[1]),
